@@ -4,12 +4,12 @@ PROP = dict(
             dict(name="market-random", go_test="TestC17", runner="C17",
                  env=dict(quick=dict(VERIF_CASES=400), thorough=dict(VERIF_CASES=6000))),
             dict(name="market-exhaustive", go_test="TestC17", runner="C17", tiers=("thorough",),
-                 env=dict(thorough=dict(VERIF_EXHAUSTIVE=6))),
+                 env=dict(thorough=dict(VERIF_EXHAUSTIVE=7))),
         ],
         rule="case = (window size n in 1..6, gap, 1-3 assets, 5-40 ops: direct UpdatePriceList samples and whole market.BeginBlocker runs "
              "with validation/discard flags and short rate lists; samples from {0,1,small,2^62,2^63-1,2^63,2^64-1,random}); "
              "non-trivial = some asset became active during the case; distinct by digest of (n, gap, op sequence). "
-             "thorough adds every sample sequence of length <= 6 over {0,3,2^63,2^64-1} for n in 1..3, gap in {0,40}",
+             "thorough adds every sample sequence of length <= 7 over {0,3,2^63,2^64-1} for n in 1..3, gap in {0,40}",
         modelled=["band oracle packet handling (samples are injected by writing the fetch result)", "uint64 arithmetic as Z (the 128-bit sum of the repaired CalculateTwa is exact)"],
         assumptions=["window size n fixed within a case (the property fixes N)", "block heights positive and increasing"],
     )
